@@ -1,6 +1,9 @@
 import ThriftVerif.Properties.C03
 import ThriftVerif.Facts.ExpectWire
 #print axioms ThriftVerif.Properties.C03.decode_total
+#print axioms ThriftVerif.Properties.C03.skip_total
+#print axioms ThriftVerif.Properties.C03.lazy_decode_total
+#print axioms ThriftVerif.Properties.C03.lazy_forced_decode_total
 #print axioms ThriftVerif.Properties.C03.stream_canonical
 #print axioms ThriftVerif.Properties.C03.lazy_canonical
 #print axioms ThriftVerif.Properties.C03.readers_agree
